@@ -451,6 +451,16 @@ def gen_pipeline(r, runnable):
             if r.random() < 0.5:
                 models.reverse()
         p[g] = models
+    if not runnable:
+        # the groups no real model of the sample belongs to: probe models (a document that is only loaded)
+        for g in ("scene_generation", "phasing", "charge_transfer", "signal_transfer", "data_processing"):
+            k = r.random()
+            if k < 0.25:
+                p[g] = [{"name": f"{g}_probe{i}", "func": "verif_probes.record", "enabled": r.random() < 0.6,
+                         "arguments": {"tag": r.choice(["s", "t"]), "with_clock": r.random() < 0.5}}
+                        for i in range(r.randrange(1, 3))]
+            elif k < 0.35:
+                p[g] = None
     if r.random() < 0.5:
         items = list(p.items())
         r.shuffle(items)        # group order in the file must not matter
@@ -599,8 +609,8 @@ def gen_mode(r, kind, runnable):
             m["mode"] = r.choice(["product", "sequential"])
             if m["mode"] == "sequential" and len(m["parameters"]) > 1 and runnable:
                 m["mode"] = "product"
-        if r.random() < 0.3:
-            m["with_dask"] = False
+        if r.random() < 0.5:
+            m["with_dask"] = r.random() < 0.6      # the runnable documents of this stream run sequentially (popped below)
         if r.random() < 0.3:
             m["result_type"] = r.choice(["all", "image"])
     else:
@@ -619,8 +629,11 @@ def gen_mode(r, kind, runnable):
                                                             {"scale": dy(r, 1, 4), "offset": r.randrange(5), "tag": "t"}])}
         if r.random() < 0.3:
             m["type_islands"] = r.choice(["multiprocessing", "multithreading"])
-        if r.random() < 0.3:
+        k = r.random()
+        if k < 0.3:
             m["weights"] = [dy(r, 0.5, 4)]
+        elif k < 0.5:
+            m["weights_from_file"] = ["c12_weights_%d.txt" % r.randrange(3)]
         if r.random() < 0.3:
             m["result_input_arguments"] = [{"key": "pipeline.photon_collection.illumination.arguments.level",
                                             "values": r.choice([[1, 2], [10, 20, 30], Expr(1, r.randrange(3, 6), 1)])}]
@@ -1205,6 +1218,9 @@ def run_settings(ctx: Ctx, cases, tag="s"):
     for c, o in pairs:
         ctx.count("evaluations", len(expected_keys(c)))
         ctx.count("documents")
+        written = {key_class(k) for k, _ in flatten(c)[0]}
+        for kc in written:
+            ctx.dist("setting_written_in_documents", kc)
         ctx.dist("settings_det_x_mode", f"{c['det']}/{c['kind']}")
         if c["run"]:
             ctx.count("runs_compared")
